@@ -1,6 +1,9 @@
 (* Structural obligations tying model/C05_TsoGlobal.v to the code as it is now (gen/Gen_C05.v is regenerated on every run). *)
 From Coq Require Import ZArith.
 From PDV Require Import lib.Skel gen.Gen_C05.
+(* WriteTSO / SetTSO go through timestampOracle.resetUserTimestamp: its error branches (the max-gap-reset-ts refusal a Global
+   write-back must not swallow) are pinned by the C01 skeleton obligations *)
+From PDV Require proof.C01_Skel.
 
 (* Global GenerateTSO: Check; without dc-locations plain getTS; otherwise under syncMu: estimate, SyncMaxTS(check), fall back to a larger collected maximum (+count, overflow bump) and SyncMaxTS(skipCheck), persist when memory is behind, Check, differentiate *)
 Lemma skel_gta_GenerateTSO_ok : skel_gta_GenerateTSO =
